@@ -145,6 +145,21 @@ func runC08(c *Check) {
 		}
 	})
 	c.Report(okReg, P+".O2", "REGISTERED-BY-NAME", r.AddHandler, r.AddHandler.Pos(), "handlers map", "the handler is registered under the given name")
+	// the identity fields (names, topics, function, Pub/Sub type names) are what AddHandler recorded: nothing rewrites them later
+	nID := 0
+	for _, pair := range []struct {
+		f    *types.Var
+		what string
+	}{{r.HName, "name"}, {r.HSubTopic, "subscribe topic"}, {r.HPubTopic, "publish topic"}, {r.HFunc, "handler function"}, {r.HPubName, "publisher type name"}, {r.HSubName, "subscriber type name"}} {
+		for _, fn := range r.Funcs {
+			for _, st := range FieldStores(fn, pair.f) {
+				nID++
+				c.Report(fn == r.AddHandler, P+".O2", "IDENTITY-WRITTEN-ONCE", fn, st.Pos(), "store to the handler's "+pair.what,
+					"a handler's "+pair.what+" is written only by AddHandler, from its parameters (the context and the wiring keep reporting the Pub/Sub the handler was configured with, also after decoration)")
+			}
+		}
+	}
+	c.Floor(P+".O2", "stores to the handler's identity fields", nID, 6)
 
 	// O3 context table
 	c08Context(c, P, r)
@@ -932,6 +947,24 @@ func runC10(c *Check) {
 			}
 		}
 	}
+	// the watcher gives up before waiting only when the router is already closed
+	if len(waits) > 0 {
+		cut := NewCut().AddInstrs(instrsOf(waits)...)
+		for _, si := range Selects(SC) {
+			for _, cs := range si.Cases {
+				if cs.Edge != nil && !cs.Send && AllOrigins(cs.Chan, IsFieldLoad(r.ClosedCh)) {
+					cut.AddEdges(*cs.Edge)
+				}
+			}
+		}
+		isClosedCalls := Callers([]*ssa.Function{SC}, r.IsClosed)
+		closedTrue, _ := BoolEdges(SC, ResultOfAny(isClosedCalls, 0))
+		cut.AddEdges(closedTrue...)
+		re := ReachEntry(SC, cut)
+		for _, ret := range Returns(SC) {
+			c.Report(!re[ret], P+".O5", "WATCHER-REACHES-WAIT", SC, ret.Pos(), "self-close watcher exit", "the watcher ends without waiting for the handler loops only when the router is already closed (not on context cancellation: handlers added later still need it to close the router when the last one ends)")
+		}
+	}
 	// second Run
 	var runningF *types.Var
 	for _, t := range Tests(Run) {
@@ -968,6 +1001,12 @@ func runC10(c *Check) {
 			}
 		}
 		c.Report(okSet, P+".O5", "RUN-MARKS-RUNNING", Run, Run.Pos(), "isRunning = true", "the first Run marks the router as running before it starts handlers")
+		for _, fn := range r.Funcs {
+			for _, st := range FieldStores(fn, runningF) {
+				cst, isC := st.Val.(*ssa.Const)
+				c.Report(isC && cst.Value != nil && cst.Value.String() == "true", P+".O5", "RUNNING-FLAG-ONLY-RAISED", fn, st.Pos(), "store to the is-running flag", "the is-running flag is never lowered again (Run's one-shot channels are closed by the first Run: a second Run must be rejected even after the first has returned)")
+			}
+		}
 	}
 	// AddHandler must not block on the watcher's wake-up channel
 	for i, op := range BlockingOps(r.AddHandler) {
